@@ -1,5 +1,5 @@
 SPECIFICATION Spec
 CONSTANTS
   Mode = "u16"
-  M16 = {0, 1, 2, 3, 5, 127, 128, 255, 256, 257, 511, 512, 513, 1000, 32767, 32768, 32769, 40000, 65534, 65535}
+  M16 = {0, 1, 2, 3, 255, 256, 257, 511, 513, 32767, 32768, 32769, 65534, 65535}
 INVARIANTS Judge Uniform
